@@ -496,6 +496,56 @@ func c37GenQuery(t *rapid.T) c37Gen {
 	return g
 }
 
+// c37CommentPair: one token sequence containing a "--" token, rendered twice with the line break at
+// different token boundaries behind the "--".
+func c37CommentPair(t *rapid.T) (string, string) {
+	tp := func(label string) string {
+		return rapid.SampledFrom([]string{"orders", "payments", "secret", "audit_log", "ev", "pii.orders", "audit.log", "secret", "orders"}).Draw(t, label)
+	}
+	toks := []string{c37Kw(t, "select"), "*", c37Kw(t, "from"), tp("c1"), "a"}
+	joinAt := len(toks)
+	if rapid.IntRange(0, 3).Draw(t, "cleft") == 0 {
+		toks = append(toks, c37Kw(t, "left"))
+	}
+	toks = append(toks, c37Kw(t, "join"), tp("c2"), "b")
+	if rapid.Bool().Draw(t, "con") {
+		toks = append(toks, c37Kw(t, "on"), "a._key", "=", "b._key")
+	}
+	afterJoin := len(toks)
+	toks = append(toks, c37Kw(t, "within"), "10m", c37Kw(t, "last"), "1h")
+	ci := joinAt
+	if rapid.IntRange(0, 3).Draw(t, "cpos") == 0 {
+		ci = rapid.IntRange(3, len(toks)).Draw(t, "cposr")
+	}
+	pick := func(label string) int {
+		switch rapid.IntRange(0, 3).Draw(t, label) {
+		case 0:
+			return ci
+		case 1:
+			if afterJoin >= ci {
+				return afterJoin
+			}
+			return ci
+		case 2:
+			return len(toks)
+		default:
+			return rapid.IntRange(ci, len(toks)).Draw(t, label+"r")
+		}
+	}
+	sp := rapid.SampledFrom([]string{" ", " ", "  ", "\t"}).Draw(t, "csp")
+	render := func(n int) string {
+		s := strings.Join(toks[:ci], sp) + sp + "--"
+		if n > ci {
+			s += sp + strings.Join(toks[ci:n], sp)
+		}
+		if n < len(toks) {
+			s += "\n" + strings.Join(toks[n:], sp)
+		}
+		return s
+	}
+	return render(pick("cn1")), render(pick("cn2"))
+}
+
 // topics the upstream's own parser names for a text (metadata statements included)
 func c37ParsedTopics(text string) ([]string, string, error) {
 	p, err := kafsql.Parse(text)
@@ -563,7 +613,8 @@ type c37Outcome struct {
 	Forwarded []string
 }
 
-func c37Session(px *Server, rec *c37Recorder, queries []string) ([]c37Outcome, error) {
+// pipe[i] == true: query i+1 is written to the proxy together with query i, before any answer is read
+func c37Session(px *Server, rec *c37Recorder, queries []string, pipe []bool) ([]c37Outcome, error) {
 	sc, cc := net.Pipe()
 	errCh := make(chan error, 1)
 	go func() { errCh <- px.handleConn(context.Background(), sc) }()
@@ -601,15 +652,55 @@ func c37Session(px *Server, rec *c37Recorder, queries []string) ([]c37Outcome, e
 	}
 	rec.take()
 	var out []c37Outcome
-	for _, q := range queries {
-		if err := fe.Send(&pgproto3.Query{String: q}); err != nil {
+	for i := 0; i < len(queries); {
+		j := i
+		for j < len(queries)-1 && j < len(pipe) && pipe[j] {
+			j++
+		}
+		group := queries[i : j+1]
+		var wire []byte
+		for _, q := range group {
+			var err error
+			if wire, err = (&pgproto3.Query{String: q}).Encode(wire); err != nil {
+				return nil, err
+			}
+		}
+		// net.Pipe is unbuffered: write on the side while the answers are read
+		werr := make(chan error, 1)
+		go func() { _, err := cc.Write(wire); werr <- err }()
+		outs := make([]c37Outcome, len(group))
+		for k := range group {
+			denied, msg, err := ready()
+			if err != nil {
+				cc.Close()
+				<-werr
+				return nil, err
+			}
+			outs[k] = c37Outcome{Denied: denied, DenyMsg: msg}
+		}
+		if err := <-werr; err != nil {
 			return nil, err
 		}
-		denied, msg, err := ready()
-		if err != nil {
-			return nil, err
+		// the upstream answers in order: its k-th received text belongs to the k-th answered query
+		fw := rec.take()
+		last := -1
+		for k := range outs {
+			if !outs[k].Denied {
+				last = k
+				if len(fw) > 0 {
+					outs[k].Forwarded = []string{fw[0]}
+					fw = fw[1:]
+				}
+			}
 		}
-		out = append(out, c37Outcome{Denied: denied, DenyMsg: msg, Forwarded: rec.take()})
+		if len(fw) > 0 { // more texts than answered queries: attach so that the judge reports it
+			if last < 0 {
+				last = len(outs) - 1
+			}
+			outs[last].Forwarded = append(outs[last].Forwarded, fw...)
+		}
+		out = append(out, outs...)
+		i = j + 1
 	}
 	_ = fe.Send(&pgproto3.Terminate{})
 	return out, nil
@@ -722,8 +813,19 @@ func TestVF_C37_Forward(t *testing.T) {
 		var kinds []string
 		for i := 0; i < n; i++ {
 			var g c37Gen
-			mode := rapid.SampledFrom([]int{0, 1, 2, 2, 3, 4, 5, 2}).Draw(t, "qmode")
+			mode := rapid.SampledFrom([]int{0, 1, 2, 2, 3, 4, 5, 2, 6, 6}).Draw(t, "qmode")
 			switch {
+			case mode == 6: // same tokens, "--" line comment, line break at two different places (decision cache collapses white space)
+				a, b := c37CommentPair(t)
+				for _, x := range []string{a, b} {
+					if known && c37InFindingClass(x) {
+						st.ExcludedCase(c37FindingID)
+						continue
+					}
+					queries = append(queries, x)
+					kinds = append(kinds, "comment-pair")
+				}
+				continue
 			case len(queries) > 0 && mode == 0: // same first 512 bytes as an earlier query, different tail (decision cache key)
 				prev := strings.TrimSpace(queries[rapid.IntRange(0, len(queries)-1).Draw(t, "prev")])
 				if len(prev) < 520 {
@@ -766,7 +868,11 @@ func TestVF_C37_Forward(t *testing.T) {
 		if len(queries) == 0 {
 			return
 		}
-		outs, err := c37Session(px, rec, queries)
+		pipe := make([]bool, len(queries))
+		for i := 0; i+1 < len(queries); i++ {
+			pipe[i] = rapid.IntRange(0, 2).Draw(t, "pipeline") == 0
+		}
+		outs, err := c37Session(px, rec, queries, pipe)
 		if err != nil {
 			t.Fatalf("VF-INCONCLUSIVE: proxy session broke: %v", err)
 		}
@@ -775,6 +881,9 @@ func TestVF_C37_Forward(t *testing.T) {
 		}
 		for i, q := range queries {
 			st.Class("kind:" + kinds[i])
+			if (i < len(pipe) && pipe[i]) || (i > 0 && pipe[i-1]) {
+				st.Class("pipelined")
+			}
 			if nm, _, e := c37ParsedTopics(q); e == nil {
 				for _, tp := range nm {
 					if strings.Contains(tp, ".") {
@@ -844,7 +953,7 @@ func TestVF_C37_Witness(t *testing.T) {
 	rec := &c37Recorder{}
 	px.dialer = rec.dial
 	st.Eval()
-	outs, err := c37Session(px, rec, []string{q})
+	outs, err := c37Session(px, rec, []string{q}, nil)
 	if err != nil {
 		t.Fatalf("VF-INCONCLUSIVE: proxy session broke: %v", err)
 	}
